@@ -149,14 +149,18 @@ func genString(rt *rapid.T) string {
 }
 
 func genKey(rt *rapid.T, i int) string {
-	// keys are non-empty (the empty key is the known, separately tracked
-	// splitMap sentinel defect C15); uniqueness comes from the index prefix.
+	// uniqueness comes from the index prefix; the empty key (at most once per
+	// map) has to be written quoted.
 	tail := ""
-	switch rapid.IntRange(0, 3).Draw(rt, "key_class") {
-	case 0:
+	switch rapid.IntRange(0, 7).Draw(rt, "key_class") {
+	case 0, 1:
 		tail = rapid.SampledFrom([]string{" sp", ",c", ":c", `"q`, "é", "=e", `\b`, "'"}).Draw(rt, "key_hostile")
-	case 1:
+	case 2, 3:
 		tail = rapid.StringMatching(`[a-z0-9._/\-]{0,5}`).Draw(rt, "key_plain")
+	case 4:
+		if i == 0 {
+			return ""
+		}
 	}
 	return fmt.Sprintf("k%d%s", i, tail)
 }
